@@ -1,207 +1,218 @@
 import Cppcheck.Proofs.Match
 /-
-C33 — property theorems.
+C33 — property theorems (compiled side and the find loop).
 
-`compiled_eq_language`: for EVERY pattern string, every token list (of any length) whose tokens
-satisfy the token-type invariant, and every varid, running the program the match compiler emits
-gives exactly the documented-language result.  No bound on pattern size or list length.
+`lang (parse p) ts v` is the documented pattern language with its three outcomes (match / no match /
+InternalError for `%varid%` evaluated under varid 0).  For EVERY pattern string, every token list (of
+any length) and every varid the program the match compiler emits is compared with it.  No bound on
+pattern size or list length: the core induction is `run_compileWords` (Proofs/Match.lean).
+
+The unrestricted statement is FALSE on the real code, in two reachable ways, and both are kept
+visible here with their counterexamples:
+  * a token spelled like a literal of the compiler's `tokTypes` table but typed differently (F17,
+    e.g. the C++ variable `restrict`): the compiled literal test also asks for the token type;
+  * varid 0 with a pattern that spells `%varid%`: the compiled code throws as soon as it reaches
+    the word, the language (and the interpreter) only when the `%varid%` alternative is evaluated.
 -/
 namespace Cppcheck.Match
+open Cppcheck.Wire
 
-/-- core induction: compiled words from any goto state = word semantics on the advanced list -/
-theorem run_compileWords (hv : Bool) (v : Nat) (hchk : v ≠ 0 ∨ hv = false) :
-    ∀ (ws : List Wire.Str) (g : Goto) (chk : Bool) (ts : List Tok),
-      (∀ t ∈ ts, TokWF t = true) → (∀ w ∈ ws, wordOk v (Word.ofStr w)) →
-      run (compileWords hv ws g chk) ts v = Res.ofBool (semWords (ws.map Word.ofStr) (advance g ts) v) := by
-  intro ws
-  induction ws with
-  | nil => intro g chk ts _ _; simp [compileWords, run, semWords, Res.ofBool]
-  | cons w ws ih =>
-    intro g chk ts hts hws
-    have hw := hws w (by simp)
-    have hws' : ∀ w' ∈ ws, wordOk v (Word.ofStr w') := fun w' h' => hws w' (by simp [h'])
-    have hadv : ∀ t ∈ advance g ts, TokWF t = true := by
-      intro t ht
-      cases g <;> simp only [advance] at ht
-      · exact hts t ht
-      · exact hts t (List.mem_of_mem_drop ht)
-      · exact hts t (List.mem_of_mem_drop ht)
-    -- the optional varid check is a no-op under hchk
-    have hck' : ∀ (p : Prog) (ts' : List Tok),
-        run ((if (hv && wordMentionsVarid w && !chk) = true then [Step.checkVarid] else []) ++ p) ts' v = run p ts' v := by
-      intro p ts'
-      split
-      · rename_i hb
-        rcases hchk with h | h
-        · simp [run, h]
-        · simp [h] at hb
-      · rfl
-    simp only [compileWords, List.map_cons]
-    generalize hA : advance g ts = A at hadv
-    cases hwd : Word.ofStr w with
-    | cls cs =>
-      simp only [List.append_assoc, run_goto, hA, hck']
-      cases A with
-      | nil => simp [run, semWords, Res.ofBool]
-      | cons t r =>
-        have := ih .next (chk || (hv && wordMentionsVarid w && !chk)) (t :: r) hadv hws'
-        simp only [advance, List.drop_one, List.tail_cons] at this
-        simp only [List.singleton_append, run, semWords]
-        cases hs : t.str with
-        | nil => simp [Res.ofBool]
-        | cons c cr =>
-          cases cr with
-          | nil =>
-            by_cases hc : c ∈ cs
-            · simp [hc, this]
-            · simp [hc, Res.ofBool]
-          | cons _ _ => simp [Res.ofBool]
-    | alts as opt =>
-      rw [hwd] at hw
-      simp only [wordOk] at hw
-      cases opt with
-      | true =>
-        simp only [if_true, List.append_assoc, run_goto, hA, hck']
-        have hrec := ih .none (chk || (hv && wordMentionsVarid w && !chk))
-        simp only [advance] at hrec
-        cases A with
-        | nil =>
-          simp only [List.singleton_append, run, semWords, Bool.true_and]
-          exact hrec [] (by simp) hws'
-        | cons t r =>
-          have ht : TokWF t = true := hadv t (by simp)
-          simp only [List.singleton_append, run, semWords, Bool.true_and, any_cond_eq as t v ht hw]
-          by_cases hc : as.any (·.eval t v) = true
-          · simp only [hc, if_true]
-            exact hrec r (fun t' h' => hadv t' (by simp [h'])) hws'
-          · simp only [hc]
-            exact hrec (t :: r) hadv hws'
-      | false =>
-        simp only [Bool.false_eq_true, if_false, List.append_assoc, run_goto, hA, hck']
-        cases A with
-        | nil => simp [run, semWords, Res.ofBool]
-        | cons t r =>
-          have ht : TokWF t = true := hadv t (by simp)
-          have := ih .next (chk || (hv && wordMentionsVarid w && !chk)) (t :: r) hadv hws'
-          simp only [advance, List.drop_one, List.tail_cons] at this
-          simp only [List.singleton_append, run, semWords, any_cond_eq as t v ht hw]
-          by_cases hc : as.any (·.eval t v) = true
-          · simp [hc, this]
-          · simp [hc, Res.ofBool]
-    | neg s =>
-      simp only [List.append_assoc, run_goto, hA, hck']
-      have hrec := ih .nextSafe (chk || (hv && wordMentionsVarid w && !chk))
-      simp only [advance] at hrec
-      cases A with
-      | nil =>
-        simp only [List.singleton_append, run, semWords]
-        simpa using hrec [] (by simp) hws'
-      | cons t r =>
-        simp only [List.singleton_append, run, semWords]
-        by_cases hs : t.str = s
-        · simp [hs, Res.ofBool]
-        · have := hrec (t :: r) hadv hws'
-          simp only [List.drop_one, List.tail_cons] at this
-          simp [hs, this]
-    | one a =>
-      rw [hwd] at hw
-      simp only [wordOk] at hw
-      simp only [List.append_assoc, run_goto, hA, hck']
-      cases A with
-      | nil => simp [run, semWords, Res.ofBool]
-      | cons t r =>
-        have ht : TokWF t = true := hadv t (by simp)
-        have := ih .next (chk || (hv && wordMentionsVarid w && !chk)) (t :: r) hadv hws'
-        simp only [advance, List.drop_one, List.tail_cons] at this
-        simp only [List.singleton_append, run, semWords, List.any_cons, List.any_nil, Bool.or_false,
-          cond_eval_eq a t v ht hw]
-        by_cases hc : a.eval t v = true
-        · simp [hc, this]
-        · simp [hc, Res.ofBool]
+/-- the statement one would like: no hypothesis on tokens or varid -/
+def CompiledEqLanguageUnrestricted : Prop :=
+  ∀ (p : Str) (hasVarid : Bool) (ts : List Tok) (v : Nat),
+    run (compile p hasVarid) ts v = lang (parse p) ts v
 
-theorem wordOk_of_nonzero (v : Nat) (hv : v ≠ 0) (w : Word) : wordOk v w := by
-  cases w <;> simp [wordOk, atomOk, hv]
+def exTok (s : String) (ty : TokType) (vid : Nat) (nm : Bool) : Tok := ⟨s.toList, ty, vid, nm⟩
 
-theorem wordOk_of_not_uses (ws : List Word) (h : usesVarid ws = false) : ∀ w ∈ ws, wordOk 0 w := by
-  intro w hw
-  simp only [usesVarid, List.any_eq_false] at h
-  have := h w hw
-  cases w with
-  | alts as opt =>
-    simp only [wordOk, atomOk]
-    intro a ha
+/-- outside `TokWF` (F17): the variable `restrict` against `const|restrict` — the language accepts
+    the spelling, the compiled test `tokType()==eKeyword && str()=="restrict"` does not.
+    Reproduced on the real code (corpus/C33, known finding `literal-typed-token`). -/
+theorem compiled_ne_language_literal_typed_token :
+    TokWF (exTok "restrict" .eVariable 1 true) = false ∧
+    run (compile "const|restrict".toList false) [exTok "restrict" .eVariable 1 true] 0 = .f ∧
+    lang (parse "const|restrict".toList) [exTok "restrict" .eVariable 1 true] 0 = .t := by decide
+
+/-- varid 0: `x|%varid%` against the token `x` — compiled throws before looking at the token, the
+    language matches on the first alternative; `%varid%` against the null token — compiled throws,
+    the language says no match.  Reproduced on the real code (known finding `varid0-eager-throw`). -/
+theorem compiled_ne_language_varid0 :
+    run (compile "x|%varid%".toList true) [exTok "x" .eName 0 true] 0 = .err ∧
+    lang (parse "x|%varid%".toList) [exTok "x" .eName 0 true] 0 = .t ∧
+    run (compile "%varid%".toList true) [] 0 = .err ∧
+    lang (parse "%varid%".toList) [] 0 = .f := by decide
+
+theorem compiled_eq_language_unrestricted_false : ¬ CompiledEqLanguageUnrestricted := by
+  intro h
+  have := h "const|restrict".toList false [exTok "restrict" .eVariable 1 true] 0
+  rw [compiled_ne_language_literal_typed_token.2.1, compiled_ne_language_literal_typed_token.2.2] at this
+  cases this
+
+/-- **C33 (compiled side), partial: tokens inside `TokWF`, and either a non-zero varid or a function
+    compiled without varid argument for a pattern that does not use `%varid%`.**
+    The specialised matcher generated for pattern `p` returns the documented-language result on every
+    token list. -/
+theorem compiled_eq_language_partial (p : Str) (hasVarid : Bool) (ts : List Tok) (v : Nat)
+    (hts : ∀ t ∈ ts, TokWF t = true)
+    (hv : v ≠ 0 ∨ (hasVarid = false ∧ usesVarid (parse p) = false)) :
+    run (compile p hasVarid) ts v = lang (parse p) ts v := by
+  have hreg : ((v ≠ 0 ∨ hasVarid = false) ∧ ∀ w ∈ words p, wordOk v (Word.ofStr w)) ∨
+      (hasVarid = true ∧ v = 0 ∧ false = false) := by
     left
-    simp only [List.any_eq_true, decide_eq_true_eq, not_exists, not_and] at this
-    exact fun e => this a ha e
-  | one a =>
-    simp only [wordOk, atomOk]
-    left
-    simpa using this
-  | cls _ => trivial
-  | neg _ => trivial
+    by_cases h0 : v = 0
+    · rcases hv with h | ⟨h1, h2⟩
+      · exact absurd h0 h
+      · subst h0
+        refine ⟨Or.inr h1, fun w hw => ?_⟩
+        exact wordOk_of_not_uses (parse p) h2 _ (by simp only [parse, List.mem_map]; exact ⟨w, hw, rfl⟩)
+    · exact ⟨Or.inl h0, fun w _ => wordOk_of_nonzero v h0 _⟩
+  rcases run_compileWords hasVarid v (words p) .none false ts hts hreg with h | ⟨h1, h2, _⟩
+  · simpa [compile, lang, parse, advance] using h
+  · rcases hv with h | ⟨h', _⟩
+    · exact absurd h2 h
+    · rw [h'] at h1; cases h1
 
-/-- **C33 (compiled side), full strength.**  The specialised matcher generated for pattern `p`
-    (call with a varid argument: `hasVarid = true`) returns the documented-language result on every
-    token list, provided the varid passed is non-zero. -/
-theorem compiled_eq_language (p : Wire.Str) (hasVarid : Bool) (ts : List Tok) (v : Nat)
+/-- **C33 (compiled side), every varid: the compiled matcher refines the language.**  Whatever the
+    varid, the function generated with a varid argument returns the language result, or — only under
+    varid 0 — throws InternalError.  In particular whenever the language throws, so does the compiled
+    matcher, and a verdict (true/false) of the compiled matcher is always the language's. -/
+theorem compiled_refines_language (p : Str) (ts : List Tok) (v : Nat)
+    (hts : ∀ t ∈ ts, TokWF t = true) :
+    run (compile p true) ts v = lang (parse p) ts v ∨ (v = 0 ∧ run (compile p true) ts v = .err) := by
+  have hreg : ((v ≠ 0 ∨ true = false) ∧ ∀ w ∈ words p, wordOk v (Word.ofStr w)) ∨
+      (true = true ∧ v = 0 ∧ false = false) := by
+    by_cases h0 : v = 0
+    · exact Or.inr ⟨rfl, h0, rfl⟩
+    · exact Or.inl ⟨Or.inl h0, fun w _ => wordOk_of_nonzero v h0 _⟩
+  rcases run_compileWords true v (words p) .none false ts hts hreg with h | ⟨_, h2, h3⟩
+  · left; simpa [compile, lang, parse, advance] using h
+  · right; exact ⟨h2, by simpa [compile] using h3⟩
+
+/-- a pattern that nowhere spells `%varid%` (e.g. `Token::Match(tok, "a b", 0)`): equality for every
+    varid and both call shapes -/
+theorem compiled_eq_language_nomention (p : Str) (hasVarid : Bool) (ts : List Tok) (v : Nat)
+    (hts : ∀ t ∈ ts, TokWF t = true) (hm : ∀ w ∈ words p, wordMentionsVarid w = false) :
+    run (compile p hasVarid) ts v = lang (parse p) ts v := by
+  by_cases h0 : v = 0
+  · subst h0
+    have hok : ∀ w ∈ words p, wordOk 0 (Word.ofStr w) := fun w hw => wordOk_of_not_mentions w (hm w hw)
+    -- no word emits the check: compile does not depend on hasVarid
+    have hc : ∀ (ws : List Str) (g : Goto) (chk : Bool), (∀ w ∈ ws, wordMentionsVarid w = false) →
+        compileWords hasVarid ws g chk = compileWords false ws g chk := by
+      intro ws
+      induction ws with
+      | nil => intro g chk _; rfl
+      | cons w ws ih =>
+        intro g chk h
+        have hw := h w (by simp)
+        have ih' := fun g' chk' => ih g' chk' (fun w' hw' => h w' (by simp [hw']))
+        simp only [compileWords, hw, Bool.and_false, Bool.false_and, Bool.or_false, Bool.false_eq_true, if_false, ih']
+    rcases run_compileWords false 0 (words p) .none false ts hts (Or.inl ⟨Or.inr rfl, hok⟩) with h | ⟨h1, _, _⟩
+    · simp only [compile, hc (words p) .none false hm]
+      simpa [lang, parse, advance] using h
+    · cases h1
+  · exact compiled_eq_language_partial p hasVarid ts v hts (Or.inl h0)
+
+/-! ### names kept for Props/C05.lean (statements over the coarse `sem`; `lang_eq_sem` is the bridge) -/
+
+theorem compiled_eq_language (p : Str) (hasVarid : Bool) (ts : List Tok) (v : Nat)
     (hts : ∀ t ∈ ts, TokWF t = true) (hv : v ≠ 0) :
     run (compile p hasVarid) ts v = sem (parse p) ts v := by
-  have h := run_compileWords hasVarid v (Or.inl hv) (words p) .none false ts hts
-    (fun w _ => wordOk_of_nonzero v hv _)
-  simp only [advance] at h
-  simp only [compile, sem, parse, h, hv, ne_eq, not_true_eq_false, and_false, if_false]
+  rw [compiled_eq_language_partial p hasVarid ts v hts (Or.inl hv), lang_eq_sem _ _ _ (Or.inl hv)]
 
-/-- same for calls without a varid argument (the interpreter then runs with varid 0): patterns
-    that do not mention `%varid%`. -/
-theorem compiled_eq_language_novarid (p : Wire.Str) (ts : List Tok)
+theorem compiled_eq_language_novarid (p : Str) (ts : List Tok)
     (hts : ∀ t ∈ ts, TokWF t = true) (hp : usesVarid (parse p) = false) :
     run (compile p false) ts 0 = sem (parse p) ts 0 := by
-  have hw := wordOk_of_not_uses (parse p) hp
-  have h := run_compileWords false 0 (Or.inr rfl) (words p) .none false ts hts
-    (fun w hw' => hw _ (by simp only [parse, List.mem_map]; exact ⟨w, hw', rfl⟩))
-  simp only [advance] at h
-  simp only [compile, sem, h, hp, Bool.false_eq_true, false_and, if_false]
-  rfl
+  rw [compiled_eq_language_partial p false ts 0 hts (Or.inr ⟨rfl, hp⟩), lang_eq_sem _ _ _ (Or.inr hp)]
 
-/-- the compiled findmatch returns the first position at which the language matches -/
-theorem find_first (p : Wire.Str) (hasVarid : Bool) (v : Nat) (hv : v ≠ 0) :
-    ∀ (ts : List Tok) (idx budget : Nat), (∀ t ∈ ts, TokWF t = true) →
-      ∀ i, findFrom (compile p hasVarid) v ts idx budget = .inl (some i) →
-        idx ≤ i ∧ sem (parse p) (ts.drop (i - idx)) v = .t := by
-  intro ts
-  induction ts with
-  | nil => intro idx budget _ i h; simp [findFrom] at h
-  | cons t r ih =>
-    intro idx budget hts i h
-    cases budget with
-    | zero => simp [findFrom] at h
-    | succ b =>
-      simp only [findFrom] at h
-      rw [compiled_eq_language p hasVarid (t :: r) v hts hv] at h
-      cases hs : sem (parse p) (t :: r) v with
-      | t =>
-        rw [hs] at h
-        simp at h
-        subst h
-        simp [hs]
-      | err => rw [hs] at h; simp at h
-      | f =>
-        rw [hs] at h
-        simp only at h
-        have := ih (idx + 1) b (fun t' h' => hts t' (by simp [h'])) i h
-        refine ⟨by omega, ?_⟩
-        have h2 : i - idx = (i - (idx + 1)) + 1 := by omega
-        rw [h2]
-        simpa using this.2
+/-! ### findmatch: the compiled find returns the language's first match
 
-/-! non-vacuity: the hypotheses are met by ordinary tokens, and the theorem is about a program
-    with several step kinds -/
-def exTok (s : String) (ty : TokType) (vid : Nat) (nm : Bool) : Tok := ⟨s.toList, ty, vid, nm⟩
+`FirstMatch m ts budget r` (Proofs/Match.lean) is the declarative statement "r is what a find has to
+return": a hit at `i` means `m` accepts at `i` and rejects at every `j < i`; `none` means `m` rejects
+at every position of the range; `err` means the first position that is not a rejection throws.  It
+determines `r` uniquely (`firstMatch_unique`). -/
+
+/-- **compiled findmatch = first match of the language**, all three outcomes -/
+theorem find_compiled_eq_language (p : Str) (hasVarid : Bool) (v : Nat) (ts : List Tok) (budget : Nat)
+    (hts : ∀ t ∈ ts, TokWF t = true)
+    (hv : v ≠ 0 ∨ (hasVarid = false ∧ usesVarid (parse p) = false)) :
+    FirstMatch (fun ts' => lang (parse p) ts' v) ts budget
+      (findWith (fun ts' => run (compile p hasVarid) ts' v) ts budget) := by
+  rw [findWith_congr _ (fun ts' => lang (parse p) ts' v) ts budget (fun j _ =>
+    compiled_eq_language_partial p hasVarid (ts.drop j) v (fun t ht => hts t (List.mem_of_mem_drop ht)) hv)]
+  exact findWith_spec _ ts budget
+
+/-- a hit of the compiled `findmatchN` (accumulator form, as emitted) is the FIRST position of the
+    range at which the language matches -/
+theorem findFrom_first (p : Str) (hasVarid : Bool) (v : Nat) (ts : List Tok) (idx budget i : Nat)
+    (hts : ∀ t ∈ ts, TokWF t = true)
+    (hv : v ≠ 0 ∨ (hasVarid = false ∧ usesVarid (parse p) = false))
+    (h : findFrom (compile p hasVarid) v ts idx budget = .inl (some i)) :
+    idx ≤ i ∧ i - idx < ts.length ∧ i - idx < budget ∧
+      lang (parse p) (ts.drop (i - idx)) v = .t ∧
+      ∀ j, j < i - idx → lang (parse p) (ts.drop j) v = .f := by
+  rw [findFrom_eq_findWith] at h
+  have hs := find_compiled_eq_language p hasVarid v ts budget hts hv
+  cases hf : findWith (fun ts' => run (compile p hasVarid) ts' v) ts budget with
+  | hit k =>
+    rw [hf] at h hs
+    simp only [Find.legacy, Sum.inl.injEq, Option.some.injEq] at h
+    simp only [FirstMatch] at hs
+    subst h
+    simpa using hs
+  | none => rw [hf] at h; simp [Find.legacy] at h
+  | err => rw [hf] at h; simp [Find.legacy] at h
+
+/-- `nullptr` from the compiled `findmatchN`: no position of the range matches -/
+theorem findFrom_none (p : Str) (hasVarid : Bool) (v : Nat) (ts : List Tok) (idx budget : Nat)
+    (hts : ∀ t ∈ ts, TokWF t = true)
+    (hv : v ≠ 0 ∨ (hasVarid = false ∧ usesVarid (parse p) = false))
+    (h : findFrom (compile p hasVarid) v ts idx budget = .inl none) :
+    ∀ j, j < ts.length → j < budget → lang (parse p) (ts.drop j) v = .f := by
+  rw [findFrom_eq_findWith] at h
+  have hs := find_compiled_eq_language p hasVarid v ts budget hts hv
+  cases hf : findWith (fun ts' => run (compile p hasVarid) ts' v) ts budget with
+  | hit k => rw [hf] at h; simp [Find.legacy] at h
+  | none => rw [hf] at hs; exact hs
+  | err => rw [hf] at h; simp [Find.legacy] at h
+
+/-- under the hypotheses of the partial theorem the compiled find never throws when `v ≠ 0` -/
+theorem findFrom_no_throw (p : Str) (hasVarid : Bool) (v : Nat) (ts : List Tok) (idx budget : Nat)
+    (hts : ∀ t ∈ ts, TokWF t = true) (hv : v ≠ 0) :
+    findFrom (compile p hasVarid) v ts idx budget ≠ .inr () := by
+  intro h
+  rw [findFrom_eq_findWith] at h
+  have hs := find_compiled_eq_language p hasVarid v ts budget hts (Or.inl hv)
+  cases hf : findWith (fun ts' => run (compile p hasVarid) ts' v) ts budget with
+  | hit k => rw [hf] at h; simp [Find.legacy] at h
+  | none => rw [hf] at h; simp [Find.legacy] at h
+  | err =>
+    rw [hf] at hs
+    obtain ⟨i, _, _, h3, _⟩ := hs
+    simp only [] at h3
+    rw [lang_eq_sem _ _ _ (Or.inl hv)] at h3
+    simp only [sem, hv, and_false, if_false, Res.ofBool] at h3
+    split at h3 <;> cases h3
+
+/-! non-vacuity: the hypotheses are met by ordinary tokens, the theorems are about programs with
+    several step kinds, and each outcome of a find occurs -/
 
 example : TokWF (exTok "x" .eVariable 3 true) = true ∧ TokWF (exTok "=" .eAssignmentOp 0 false) = true := by decide
 example : compile "%varid% =|+= !!0 [;,] foo|".toList true =
     [.checkVarid, .require [.varidName], .next,
      .require [.lit ['='] [.eAssignmentOp], .lit ['+', '='] [.eAssignmentOp]], .next,
      .reject ['0'], .nextSafe, .cls [';', ','], .next, .optional [.lit ['f','o','o'] []]] := by decide
+example : usesVarid (parse "a b|c".toList) = false := by decide
+example : ∀ w ∈ words "a b|c !!d [xy]".toList, wordMentionsVarid w = false := by decide
+-- hit at 2 (not at the earlier near-miss), nullptr because of the `end` budget, nullptr on the empty list
+example : findFrom (compile "x =".toList false) 0
+    [exTok "x" .eName 0 true, exTok ";" .eExtendedOp 0 false, exTok "x" .eName 0 true, exTok "=" .eAssignmentOp 0 false] 0 4
+      = .inl (some 2) := by decide
+example : findFrom (compile "x =".toList false) 0
+    [exTok "x" .eName 0 true, exTok ";" .eExtendedOp 0 false, exTok "x" .eName 0 true, exTok "=" .eAssignmentOp 0 false] 0 2
+      = .inl none := by decide
+example : findFrom (compile "x".toList false) 0 [] 0 5 = .inl none := by decide
+-- the throw of a find: varid 0, first position rejects on an earlier word, second reaches `%varid%`
+example : findFrom (compile "a %varid%".toList true) 0 [exTok "b" .eName 0 true, exTok "a" .eName 0 true] 0 2
+    = .inr () := by decide
 
 end Cppcheck.Match
